@@ -194,7 +194,101 @@ def job(j):
   return d
 
 
+ANN_FORMS = {'@Limit': '@Limit(%s, 3);', '@OrderBy': '@OrderBy(%s, "col0");', '@NoInject': '@NoInject(%s);', '@With': '@With(%s);',
+             '@NoWith': '@NoWith(%s);', '@Ground': '@Ground(%s);'}
+
+
+def decision_case(rng):
+  """a program of a few one-column predicates with random annotations (on existing and on missing predicates) and
+  random distinct denotations per rule -> (text, annotations in program order, rules [(pred, distinct)])"""
+  preds = ['Aa', 'Bb', 'Cc'][:rng.randint(1, 3)]
+  lines = ['@Engine("sqlite");', 'T(1);', 'T(2);']
+  rules = [('T', False), ('T', False)]
+  anns = []
+  for _ in range(rng.randint(0, 4)):
+    a = rng.choice(sorted(ANN_FORMS))
+    p = rng.choice(preds + ['Zz', 'Yy']) if rng.random() < 0.5 else rng.choice(preds)
+    if (a, p) in anns or (a in ('@With', '@NoWith') and any(x in ('@With', '@NoWith') and q == p for x, q in anns)):
+      continue
+    anns.append((a, p))
+    lines.append(ANN_FORMS[a] % p)
+  for p in preds:
+    for _ in range(rng.randint(1, 3)):
+      d = rng.random() < 0.3
+      rules.append((p, d))
+      lines.append('%s(x)%s :- T(x);' % (p, ' distinct' if d else ''))
+  rng.shuffle(lines[3:])
+  return '\n'.join(lines) + '\n', anns, rules, preds
+
+
+def decision_job(text):
+  try:
+    with R.quiet():
+      rules = R.parse.ParseFile(text)['rule']
+      order = list(R.universe.Annotations.ANNOTATING_PREDICATES)
+      R.universe.LogicaProgram(rules)
+    return {'kind': 'ok', 'order': order}
+  except Exception as e:  # noqa: BLE001
+    msg = re.sub(r'\x1b\[[0-9;]*m', '', R.diag_text(e))
+    out = {'kind': R.classify(e), 'msg': msg[:400], 'order': list(R.universe.Annotations.ANNOTATING_PREDICATES)}
+    m = re.search(r'Annotation (@\w+) must be applied to an existing predicate, but it was applied to a non-existing predicate (\w+)', msg)
+    if m:
+      out['annotated'] = [m.group(1), m.group(2)]
+    m = re.search(r'Predicate (\w+) violates it', msg)
+    if m:
+      out['distinct'] = m.group(1)
+    return out
+
+
+def run_decisions(ck):
+  """(K) Checks.checkAnnotated / checkDistinct against what LogicaProgram raises"""
+  cases = [decision_case(ck.rng) for _ in range(ck.budget(120, 2500))]
+  reals = core.pmap(decision_job, [c[0] for c in cases])
+  reqs = []
+  for (text, anns, rules, preds), real in zip(cases, reals):
+    order = real['order']
+    # iteration order of the code: annotation kinds in the order of ANNOTATING_PREDICATES, predicates in program order
+    pos = {}
+    for i, line in enumerate(text.split('\n')):
+      for a, p in anns:
+        if line == ANN_FORMS[a] % p:
+          pos[(a, p)] = i
+    ordered = sorted(anns, key=lambda ap: (order.index(ap[0]), pos[ap]))
+    rule_order = []
+    for line in text.split('\n'):
+      m = re.match(r'^(\w+)\((?:x|\d)\)( distinct)?( :- T\(x\))?;$', line)
+      if m:
+        rule_order.append([m.group(1), bool(m.group(2))])
+    allp = sorted(set(preds) | {'T'} | {p for a, p in anns if a == '@Ground'})
+    reqs.append({'op': 'checks', 'preds': allp, 'annotations': [list(x) for x in ordered], 'rules': rule_order})
+  models = core.Driver().ask_many(reqs)
+  for (text, anns, rules, preds), real, model in zip(cases, reals, models):
+    ck.corr('checks-vs-model')
+    ck.case(['decision', text], bool(model.get('annotated') or model.get('distinct')), ['decision:' + ('annotated' if model.get('annotated') else 'distinct' if model.get('distinct') else 'clean')])
+    inp = {'text': text}
+    if model.get('distinct'):
+      # the parser's multi-body-aggregation rewrite performs its own consistency check before the annotations
+      # are looked at; it may name any predicate whose rules disagree
+      bad = {p for p in preds if len({d for q, d in rules if q == p}) > 1}
+      named = re.search(r'for predicate (\w+)', real.get('msg', '').replace('>>', '').replace('<<', ''))
+      named = real.get('distinct') or (named.group(1) if named else None)
+      if model.get('annotated') and real.get('annotated') == model['annotated']:
+        pass      # the annotation check runs before the program-level distinct check
+      elif real['kind'] not in DIAG or named not in bad:
+        ck.disagreement('checks-vs-model', inp, real, model)
+        if real['kind'] == 'ok':
+          ck.violation('c19:inconsistent-distinct:accepted', 'rules of %s disagree on distinct and are accepted' % model['distinct'], inp)
+    elif model.get('annotated'):
+      if real.get('annotated') != model['annotated']:
+        ck.disagreement('checks-vs-model', inp, real, model)
+        if real['kind'] == 'ok':
+          ck.violation('c19:annotation-of-missing-predicate:accepted', 'annotation %s of the missing predicate %s is accepted' % tuple(model['annotated']), inp)
+    elif real['kind'] != 'ok':
+      ck.disagreement('checks-vs-model', inp, real, model)
+
+
 def run(ck):
+  run_decisions(ck)
   n = ck.budget(40, 600)
   made = semcheck.make_programs(ck, n, G.Gen.ALL - {'injectible'})
   jobs = []
